@@ -563,6 +563,16 @@ func (e *exprCtx) expr(v ssa.Value) string {
 	case *ssa.Lookup:
 		return e.expr(x.X) + "[" + e.expr(x.Index) + "]"
 	case *ssa.Slice:
+		// the argument list of a variadic call: its elements, not the name of the compiler's temporary
+		if al, ok := x.X.(*ssa.Alloc); ok && al.Comment == "varargs" && x.Low == nil && x.High == nil && x.Max == nil {
+			if els := variadicElems(x); len(els) > 0 && len(els) <= 16 {
+				var parts []string
+				for _, el := range els {
+					parts = append(parts, e.expr(el))
+				}
+				return "[" + strings.Join(parts, ", ") + "]"
+			}
+		}
 		s := e.expr(x.X) + "["
 		if x.Low != nil {
 			s += e.expr(x.Low)
@@ -804,6 +814,37 @@ func (e *exprCtx) call(c *ssa.CallCommon) string {
 	n := calleeName(c)
 	if n == "" {
 		n = "dyn:" + e.expr(c.Value)
+	}
+	// binary.BigEndian.AppendUintNN(b, v) is append(b, the bytes of v from the most significant down)
+	if strings.HasPrefix(n, "(encoding/binary.bigEndian).AppendUint") {
+		width := 0
+		switch strings.TrimPrefix(n, "(encoding/binary.bigEndian).AppendUint") {
+		case "16":
+			width = 16
+		case "32":
+			width = 32
+		case "64":
+			width = 64
+		}
+		if as := callArgs(c); width > 0 && len(as) == 3 {
+			vs := e.expr(as[2])
+			bits := sigBits(as[2], 0)
+			if bits > width {
+				bits = width
+			}
+			var parts []string
+			for k := width - 8; k >= 0; k -= 8 {
+				t := vs
+				if k > 0 {
+					t = fmt.Sprintf("(%s >> %d)", vs, k)
+				}
+				if bits-k > 8 {
+					t = andStr("255", t)
+				}
+				parts = append(parts, t)
+			}
+			return "builtin.append(" + e.expr(as[1]) + ", [" + strings.Join(parts, ", ") + "])"
+		}
 	}
 	// the min/max builtins read like the hand-written idioms (see selPhi)
 	if n == "builtin.min" || n == "builtin.max" {
